@@ -350,7 +350,7 @@ def adaptive_run_traces(rep, tier):
 
 
 def conclude(rep, traces):
-    verdicts, st, trn = tlc.validate_traces('CombiSchemeTrace', traces, 'c01')
+    verdicts, st, trn = tlc.validate_traces('CombiSchemeTrace', traces, 'c01', unevaluable='P_SpecEvaluable')
     rep.cov['states'] += st
     rep.cov['transitions'] += trn
     rep.cov['traces_validated_against_impl'] += len(traces)
